@@ -11,6 +11,8 @@ import (
 	"strings"
 
 	sdk "github.com/cosmos/cosmos-sdk/types"
+	"google.golang.org/grpc/codes"
+	"google.golang.org/grpc/status"
 
 	dispatchertypes "github.com/noble-assets/orbiter/v2/types/component/dispatcher"
 )
@@ -136,7 +138,7 @@ func (w *World) QDispatchedAmount(ctx sdk.Context, sp, sc, dp, dc, denom string)
 	err = w.Query(ctx, qDis+"DispatchedAmounts", &dispatchertypes.QueryDispatchedAmountsRequest{SourceProtocolId: sp, SourceCounterpartyId: sc,
 		DestinationProtocolId: dp, DestinationCounterpartyId: dc, Denom: denom}, &r)
 	if err != nil {
-		if strings.Contains(err.Error(), "not found") {
+		if status.Code(err) == codes.NotFound {
 			return "", "", false, nil
 		}
 		return "", "", false, err
@@ -152,7 +154,7 @@ func (w *World) QDispatchedCount(ctx sdk.Context, sp, sc, dp, dc string) (n uint
 	err = w.Query(ctx, qDis+"DispatchedCounts", &dispatchertypes.QueryDispatchedCountsRequest{SourceProtocolId: sp, SourceCounterpartyId: sc,
 		DestinationProtocolId: dp, DestinationCounterpartyId: dc}, &r)
 	if err != nil {
-		if strings.Contains(err.Error(), "not found") {
+		if status.Code(err) == codes.NotFound {
 			return 0, false, nil
 		}
 		return 0, false, err
@@ -183,6 +185,10 @@ func (w *World) statsPrefix() ([]Op, map[string]TransferSpec) {
 	addT(TransferSpec{"channel-1", denomOTH, "10001", orb, w.FwdInternal(w.Bob), []FeeSpec{{To: w.Fee1.String(), Fixed: "7"}, {To: w.Fee2.String(), Bps: 100}}})
 	addT(TransferSpec{"channel-0", denomOTH, "42", orb, w.FwdInternal(w.Carol), nil})
 	addT(TransferSpec{"channel-0", denomBIG, half, orb, w.FwdInternal(w.Bob), nil})
+	// totals crossing 2^63 and 2^64 while later transfers on the same route are small
+	addT(TransferSpec{"channel-0", denomBIG, "9223372036854775808", orb, w.FwdInternal(w.Carol), nil})
+	addT(TransferSpec{"channel-0", denomBIG, "18446744073709551617", orb, w.FwdInternal(w.Carol), []FeeSpec{{To: w.Fee1.String(), Bps: 1}}})
+	addT(TransferSpec{"channel-0", denomBIG, "7", orb, w.FwdInternal(w.Carol), nil})
 	addT(TransferSpec{"channel-1", denomUSDC, "500", orb, w.FwdInternal(w.Bob), nil}) // overflows the accumulator after Env(seed-stats-top)
 	// refused transfers
 	addT(TransferSpec{"channel-0", denomUSDC, "2000000", orb, w.FwdCCTP(0), nil}) // over the CCTP burn limit
@@ -216,7 +222,7 @@ func checkC12(tier string) *Report {
 	alpha, specs := worlds[0].statsPrefix()
 	depth := 3
 	if tier == "thorough" {
-		depth = 4
+		depth = 5
 	}
 	x := &Explorer{Rep: rep, Prefix: alpha, Depth: depth, Budget: budgetFromEnv(map[string]int{"quick": 8, "thorough": 60}[tier])}
 	x.ModelInit = func(w *World) any { return newStatsModel() }
